@@ -598,18 +598,19 @@ MANIFEST_TEXT = {
                 note=_NOTE, technique='TLA+ Level-A model checking + LTS replay + TLC trace validation', ref='DESIGN.md 6 C01'),
     'C02': dict(level=_LVL + 'MemoryFS and PhysicalFS are both judged by the same deterministic Level A on the same LTS edges (and by the same cursor machines on the handle LTS), so agreement follows on the specified regime; in addition lock-step runs execute every call on MemoryFS and PhysicalFS side by side and TLC (conjunct agree) compares success/failure, the pinned classes and the complete observation of both, also where Level A leaves the outcome open (failed composites).',
                 note=_NOTE, technique='TLA+ Level-A model checking + LTS replay on mem and phys + TLC trace validation', ref='DESIGN.md 6 C02'),
-    'C03': dict(level=_LVL + 'Conjunct wellformed is evaluated by TLC on the observed record of every event over the unrestricted operation domain.',
+    'C03': dict(level=_LVL + 'Conjunct wellformed is evaluated by TLC on the observed record of every event over the unrestricted operation domain. For unbounded universes the TLA+ proof system proves that every Level-A operation preserves well-formedness (spec/proofs, ApplyWF) and that the overlay view is always well-formed (ViewWellFormedAlways).',
                 note=_NOTE, technique='TLA+ invariant WellFormed (model) + WellFormedObs on every trace event', ref='DESIGN.md 6 C03'),
     'C05': dict(level=_LVL + 'Conjunct observers (ObserversAgree, WalkAgrees) relates the observers to each other on every event without reference to the model state.',
                 note=_NOTE, technique='TLA+ ObserversAgree on every trace event', ref='DESIGN.md 6 C05'),
     'C07': dict(level=_LVL + 'Altroot configurations execute every call also as the twin call on P/q in a second identical world; TLC checks twin equality, confinement of the recorded inner calls and that the outside snapshot is unchanged. '
                 'Confinement against hostile path expressions: a catalogue of escapes ("..", absolute and doubled-slash segments, encoded dots, ...) plus a seeded sample of the argument strings TLC enumerated for C06 is joined onto the root of altroot filesystems '
                 '(P of depth 1-3 over memory, physical, altroot, overlay) and of a PhysicalFS inside a sandbox with canaries; 16 operations are applied to each result; TLC (Trace_Confine) checks that every inner call stays below P, the outside snapshot '
-                '(std::fs for the sandbox) is unchanged and no read returned canary bytes.',
-                note=_NOTE, technique='TLA+ trace validation with twin execution (TwinEqual, Confined, OutsideUnchanged)', ref='DESIGN.md 6 C07'),
+                '(std::fs for the sandbox) is unchanged and no read returned canary bytes. For phys and alt(P,phys) every event also carries what std::fs finds below the backing directory and TLC requires it to equal the observed tree (ondisk); '
+                'operations on the altroot\'s own root are compared with the same operation on P of the underlying filesystem (twinroot). MC_Altroot_q model-checks the re-rooting law of Level A.',
+                note=_NOTE, technique='TLA+ trace validation with twin execution (TwinEqual, Confined, OutsideUnchanged, OnDisk) + MC_Altroot re-rooting law', ref='DESIGN.md 6 C07'),
     'C08': dict(level=_LVL + 'Every overlay layer is wrapped in a recording filesystem; TLC checks on every event that lower layers are unchanged (structure, bytes, times) and that observers issue no mutating call.',
                 note=_NOTE, technique='TLA+ trace validation (LowerUnchanged, ObserversPure) over recorded layer snapshots and call logs', ref='DESIGN.md 6 C08'),
-    'C09': dict(level=_LVL + 'The init event carries the layer snapshots; TLC computes Merge(layers) and judges the overlay by the same Level-A actions from then on.',
+    'C09': dict(level=_LVL + 'The init event carries the layer snapshots and the whiteout markers of the write layer (initial states include write layers that were used before); TLC computes the marker-aware Merge(layers, wo) and judges the overlay by the same Level-A actions from then on. MC_Overlay_q / MC_Overlay_3 model-check the Level-B overlay algorithm against Level A from ALL layer contents; the DRIFT check binds that algorithm to the code; unbounded theorems about it are proved with tlapm (spec/proofs/OverlayProofs).',
                 note=_NOTE, technique='TLA+ Merge(layers) + Level-A trace validation on pre-populated overlays', ref='DESIGN.md 6 C09'),
     'C10': dict(level=_LVL + 'A dedicated driver removes entries that live in lower layers (file, emptied directory, remove_dir_all of a subtree), performs unrelated operations, '
                 're-creates the path (changing its type) and repeats three cycles on 2-4 layers; because the observation covers the whole universe and records unknown listed names as foreign, '
@@ -618,7 +619,7 @@ MANIFEST_TEXT = {
                 technique='TLA+ Level-A trace validation of removal/re-creation cycles over pre-populated lower layers', ref='DESIGN.md 6 C10'),
     'C14': dict(level='TLC explores every reachable state of the bounded read/write cursor machines (VfsHandles: buffers <= 3 symbols, seeks from Start/Current/End with negative, zero and '
                 'past-the-end offsets, read sizes 0/1/2/5, remove while open) and emits the LTS; the harness walks it coverage-guided (untested edges first) on handles obtained from memory, physical, '
-                'altroot and overlay (incl. copy-up from a lower layer) with block sizes scaling offsets and lengths, ending walks with extreme-offset seeks; TLC validates every return value and '
+                'altroot and overlay (incl. copy-up from a lower layer) with block sizes scaling offsets and lengths, ending walks with extreme-offset seeks and with scripts of seeks near multiples of 2^62 whose results TLC judges by pair arithmetic (no wrap-around, exact target); TLC validates every return value and '
                 'what a fresh reader sees after every call (Trace_Handles).',
                 note='Trusted: TLC; block concretisation (uniform block size is a homomorphism for read/write/seek). Seeks on append handles are not generated on physical files (O_APPEND, excluded by the property). Short reads are accepted if non-empty and in order.',
                 technique='TLA+ cursor-machine model checking (MC_Handles) + LTS replay on real handles + TLC trace validation', ref='DESIGN.md 6 C14'),
